@@ -53,7 +53,8 @@ def values_at(axis, level, n):
                     [[0, 1, False, None], [1, 2, True, None], [2, n, False, [['15.995', 1]]]]]
         return out
     if axis == 'charge':
-        return [[2, None, None], [-1, None, None], [2, None, '+2Na+'], [1, None, '+Na+']]
+        return [[2, None, None], [-1, None, None], [2, None, '+2Na+'], [1, None, '+Na+']] + \
+            ([[12, None, None], [-11, None, None]] if level <= 2 else [])       # two-digit carrier counts
     raise KeyError(axis)
 
 
@@ -145,6 +146,13 @@ def check(case, ctx):
                          has_interval_mods=any(iv[3] for iv in (P.get('iv') or [])), labels=P.get('isotope'),
                          static_terminal=any(t in ('N-Term', 'C-Term') for r in (P.get('static') or []) for t in r['targets']))
                 continue
+            # a charge written without adducts: the charged masses agree as well (the label path writes the carriers as a
+            # count of H+; 5e-8 per charge for the proton / hydrogen-minus-electron difference of the two paths)
+            if P.get('charge') is not None and not P.get('adducts'):
+                c_in, c_out = lib.call(p.mass, s), lib.call(p.mass, out)
+                ctx.evals += 2
+                if c_in[0] != 'ok' or c_out[0] != 'ok' or abs(c_in[1] - c_out[1]) > budget + 5e-8 * abs(P['charge']) + 1e-7:
+                    ctx.fail('charged-mass-changed', c_in[1], c_out[1], call=call, output=out, charge=P['charge'], budget=budget)
             # placement: a residue carries a shift iff it is modified in the explicit form (labels: every residue
             # containing the element -- not prescribed here, any residue may then carry a shift)
             if not P.get('isotope'):
